@@ -212,7 +212,7 @@ Qed.
 
 Lemma vs_ttl_step s op : vs_ttl (fst (vs_step s op)) = vs_ttl s.
 Proof.
-  destruct op as [now m_id tok topics|now id topics script|now]; cbn; try reflexivity.
+  destruct op as [now m_id tok topics|now id topics script|now|now g]; cbn; try reflexivity.
   unfold vs_put. destruct topics; [reflexivity|]. destruct (spec_put_id _ _ _) as [e|[id nx]]; reflexivity.
 Qed.
 
@@ -220,7 +220,7 @@ Qed.
 Lemma vs_step_keeps s op e :
   In e (vs_l s) -> (vop_now op < e_exp e)%Z -> In e (vs_l (fst (vs_step s op))).
 Proof.
-  intros Hin Hexp. destruct op as [now m_id tok topics|now id topics script|now]; cbn in *.
+  intros Hin Hexp. destruct op as [now m_id tok topics|now id topics script|now|now g]; cbn in *.
   - unfold vs_put. destruct topics as [|t ts]; [exact Hin|].
     set (due := (_ && _)%bool).
     assert (H1 : In e (if due then collect (vs_l s) now else vs_l s)).
@@ -229,6 +229,7 @@ Proof.
     apply in_or_app. now left.
   - exact Hin.
   - now apply collect_keeps_unexpired.
+  - exact Hin.
 Qed.
 
 Lemma vs_step_stores s now m_id tok topics id nx :
@@ -250,7 +251,7 @@ Proof.
   - inversion Hall as [|? ? Hop Hrest]; subst. apply IH; [|assumption].
     apply in_app_or in Hin. apply in_or_app. destruct Hin as [Hin|Hin].
     + left. now apply vs_step_keeps.
-    + destruct op as [now m_id tok topics|now id topics script|now]; try (now right).
+    + destruct op as [now m_id tok topics|now id topics script|now|now g]; try (now right).
       destruct topics as [|t ts]; [now right|].
       destruct (spec_put_id m_id (vs_next s) (t :: ts)) as [er|[id nx]] eqn:E; [now right|].
       destruct Hin as [<-|Hin]; [|now right].
@@ -321,7 +322,7 @@ Lemma vs_step_sorted s op t :
   (0 <= vs_ttl s)%Z -> sorted_upto (vs_l s) (t + vs_ttl s) -> (t <= vop_now op)%Z ->
   sorted_upto (vs_l (fst (vs_step s op))) (vop_now op + vs_ttl s).
 Proof.
-  intros Httl Hs Ht. destruct op as [now m_id tok topics|now id topics script|now]; cbn in *.
+  intros Httl Hs Ht. destruct op as [now m_id tok topics|now id topics script|now|now g]; cbn in *.
   - unfold vs_put. destruct topics as [|t0 ts]; [eapply sorted_upto_weaken; [exact Hs|lia]|].
     set (due := (_ && _)%bool).
     assert (H1 : sorted_upto (if due then collect (vs_l s) now else vs_l s) (t + vs_ttl s)).
@@ -331,6 +332,7 @@ Proof.
     + apply (sorted_upto_app _ (t + vs_ttl s) (mke id (t0 :: ts) tok (now + vs_ttl s))); [exact H1|cbn; lia].
   - eapply sorted_upto_weaken; [exact Hs|lia].
   - eapply sorted_upto_weaken; [apply collect_sorted_upto; exact Hs|lia].
+  - eapply sorted_upto_weaken; [exact Hs|lia].
 Qed.
 
 Lemma vs_sorted_after ops : forall s t,
